@@ -425,6 +425,117 @@ pub fn import_rule_projects() -> Vec<Project> {
     v
 }
 
+// ------------------------------------------------------------------------------------------------
+// type-directed lookups through a value whose type lives in a package the user never names
+//
+// What a package may *name* is decided by name resolution (the import-rule catalogue above).  What the typer finds
+// *by type* - the impl behind `Trait::m(v)` / `v.m()`, an inherent method, a field, the impl that satisfies a bound or
+// a `dyn` coercion, the definition behind a match - is looked up in "the environments of the dependencies" of the
+// package being checked, and the two pipelines build that set independently (whole: `typecheck_packages`, separate:
+// the `.interface` files `check_package` / `build_package` load).  The catalogue crosses every such lookup with every
+// way the owner of the type (and of the impl) can be related to the user package: imported by the user's file,
+// imported only by a sibling file of the package, reachable only through an import of an import; with the user being
+// the root or a library; with the trait impl living beside the type or beside the trait.  Nothing is expected here
+// except that both pipelines give the same verdict (and, when they accept, the same behaviour).
+
+/// (name, needs the trait, extra items of the user file, body of `fn b() -> int32`)
+const LOOKUP_FORMS: &[(&str, bool, &str, &str)] = &[
+    // ---- controls: the value only flows through; no lookup by its type in the user package
+    ("flow-call", false, "", "Make::take(Make::mk())"),
+    ("flow-let", false, "", "let v = Make::mk();\n    Make::take(v)"),
+    ("flow-generic-fn", false, "fn idl[T](x: T) -> T {\n    x\n}\n\n", "Make::take(idl(Make::mk()))"),
+    ("flow-closure", false, "", "let c = |v| Make::take(v);\n    c(Make::mk())"),
+    ("flow-tuple", false, "", "let t = (Make::mk(), 2);\n    Make::take(t.0) + t.1"),
+    ("flow-local-generic-struct", false, "struct Holder[T] {\n    h: T,\n}\n\n", "let h = Holder { h: Make::mk() };\n    Make::take(h.h)"),
+    ("flow-match-wildcard", false, "", "match Make::mkKind() {\n        _ => 4,\n    }"),
+    ("flow-match-variable", false, "", "match Make::mkKind() {\n        k => Make::takeKind(k),\n    }"),
+    // ---- lookups by the type of the value
+    ("field", false, "", "Make::mk().value"),
+    ("field-of-let", false, "", "let v = Make::mk();\n    v.value + 1"),
+    ("field-of-generic", false, "", "Make::mkWrap().it"),
+    ("field-nested", false, "", "Make::mkWrap2().it.value"),
+    ("inherent-method", false, "", "Make::mk().get()"),
+    ("inherent-method-of-let", false, "", "let v = Make::mk();\n    v.get() + 1"),
+    ("closure-param-field", false, "", "Make::with(|it| it.value)"),
+    ("closure-param-inherent-method", false, "", "Make::with(|it| it.get())"),
+    ("trait-ufcs", true, "", "string_len(Tr::Show::show(Make::mk()))"),
+    ("trait-ufcs-of-let", true, "", "let v = Make::mk();\n    string_len(Tr::Show::show(v))"),
+    ("trait-method-syntax", true, "", "string_len(Make::mk().show())"),
+    ("closure-param-trait-ufcs", true, "", "Make::with(|it| string_len(Tr::Show::show(it)))"),
+    ("closure-param-trait-method-syntax", true, "", "Make::with(|it| string_len(it.show()))"),
+    ("closure-param-dyn-coercion", true, "", "Make::with(|it| {\n        let d: dyn Tr::Show = it;\n        string_len(Tr::Show::show(d))\n    })"),
+    ("closure-param-dyn-coercion-arg", true, "fn viaDyn(d: dyn Tr::Show) -> int32 {\n    string_len(Tr::Show::show(d))\n}\n\n", "Make::with(|it| viaDyn(it))"),
+    ("closure-param-trait-bound", true, "fn h[T: Tr::Show](t: T) -> int32 {\n    string_len(Tr::Show::show(t))\n}\n\n", "Make::with(|it| h(it))"),
+    ("closure-param-field-of-generic", false, "", "Make::withWrap(|w| w.it)"),
+    ("trait-bound", true, "fn h[T: Tr::Show](t: T) -> int32 {\n    string_len(Tr::Show::show(t))\n}\n\n", "h(Make::mk())"),
+    ("trait-bound-unused", true, "fn h[T: Tr::Show](t: T) -> int32 {\n    9\n}\n\n", "h(Make::mk())"),
+    ("dyn-coercion-let", true, "", "let d: dyn Tr::Show = Make::mk();\n    string_len(Tr::Show::show(d))"),
+    ("dyn-coercion-arg", true, "fn viaDyn(d: dyn Tr::Show) -> int32 {\n    string_len(Tr::Show::show(d))\n}\n\n", "viaDyn(Make::mk())"),
+    ("trait-ufcs-in-generic-struct", true, "", "string_len(Tr::Show::show(Make::mkWrap2().it))"),
+];
+
+pub fn lookup_visibility_projects() -> Vec<Project> {
+    let mut v = Vec::new();
+    for placement in ["impl-beside-type", "impl-beside-trait"] {
+        // the owner of the type: struct, enum, generic struct, inherent impl (and the trait impl, when it lives here)
+        let imp = "impl Tr::Show for Item {\n    fn show(self: Item) -> string {\n        \"item\" + int32_to_string(self.value)\n    }\n}\n";
+        let data_items = "struct Item {\n    value: int32,\n}\n\nenum Kind {\n    Small,\n    Big(int32),\n}\n\nstruct Wrap[T] {\n    it: T,\n}\n\nimpl Item {\n    fn get(self: Item) -> int32 {\n        self.value + 1\n    }\n}\n";
+        let (data, tr) = if placement == "impl-beside-type" {
+            (
+                format!("package Data\nimport Tr\n\n{}\n{}", data_items, imp),
+                "package Tr\n\ntrait Show {\n    fn show(Self) -> string;\n}\n".to_string(),
+            )
+        } else {
+            (
+                format!("package Data\n\n{}", data_items),
+                "package Tr\nimport Data\n\ntrait Show {\n    fn show(Self) -> string;\n}\n\nimpl Show for Data::Item {\n    fn show(self: Data::Item) -> string {\n        \"item\" + int32_to_string(self.value)\n    }\n}\n".to_string(),
+            )
+        };
+        // the only package through which the user package gets hold of values of Data's types
+        let make = "package Make\nimport Data\n\nfn mk() -> Data::Item {\n    Data::Item { value: 7 }\n}\n\nfn mkKind() -> Data::Kind {\n    Data::Kind::Big(3)\n}\n\nfn mkWrap() -> Data::Wrap[int32] {\n    Data::Wrap { it: 5 }\n}\n\nfn mkWrap2() -> Data::Wrap[Data::Item] {\n    Data::Wrap { it: Data::Item { value: 6 } }\n}\n\nfn with(f: (Data::Item) -> int32) -> int32 {\n    f(Data::Item { value: 9 })\n}\n\nfn withWrap(f: (Data::Wrap[int32]) -> int32) -> int32 {\n    f(Data::Wrap { it: 8 })\n}\n\nfn take(i: Data::Item) -> int32 {\n    i.value\n}\n\nfn takeKind(k: Data::Kind) -> int32 {\n    match k {\n        Data::Kind::Small => 0,\n        Data::Kind::Big(n) => n,\n    }\n}\n";
+        for (form, needs_trait, items, body) in LOOKUP_FORMS {
+            if placement == "impl-beside-trait" && !needs_trait {
+                continue;
+            }
+            for user in ["Main", "Lib"] {
+                for vis in ["imported", "sibling-file-imports", "transitive-only"] {
+                    let mut head = format!("package {user}\nimport Make\nimport Tr\n");
+                    if vis == "imported" {
+                        head.push_str("import Data\n");
+                    }
+                    let file_b = format!("{head}\n{items}fn b() -> int32 {{\n    {body}\n}}\n");
+                    let sibling = format!("package {user}\nimport Data\n\nfn keep(i: Data::Item) -> int32 {{\n    i.value\n}}\n");
+                    let mut files: Vec<(String, String)> = vec![
+                        ("Data/lib.gom".to_string(), data.clone()),
+                        ("Tr/lib.gom".to_string(), tr.clone()),
+                        ("Make/lib.gom".to_string(), make.to_string()),
+                    ];
+                    if user == "Main" {
+                        files.push(("main.gom".to_string(), "package Main\n\nfn main() {\n    string_println(int32_to_string(b()));\n}\n".to_string()));
+                        files.push(("use.gom".to_string(), file_b));
+                        if vis == "sibling-file-imports" {
+                            files.push(("keep.gom".to_string(), sibling));
+                        }
+                    } else {
+                        files.push(("main.gom".to_string(), "package Main\nimport Lib\n\nfn main() {\n    string_println(int32_to_string(Lib::b()));\n}\n".to_string()));
+                        files.push(("Lib/use.gom".to_string(), file_b));
+                        if vis == "sibling-file-imports" {
+                            files.push(("Lib/keep.gom".to_string(), sibling));
+                        }
+                    }
+                    v.push(Project {
+                        id: format!("look-{}-{}-{}-{}", form, user, vis, placement),
+                        kind: "lookup-visibility",
+                        files,
+                        tags: vec![format!("lookup={}", form), format!("user={}", user), format!("type-owner={}", vis), placement.to_string()],
+                    });
+                }
+            }
+        }
+    }
+    v
+}
+
 /// diagnostics of the stages before the typer (parser, AST lowering, derive), in the entry file, in a
 /// sibling file of Main and in a library file
 pub fn early_diagnostic_projects() -> Vec<Project> {
@@ -816,6 +927,28 @@ pub fn main(args: &util::Args) {
     projects.extend(corpus_witnesses());
     projects.extend(import_rule_projects());
     projects.extend(early_diagnostic_projects());
+    projects.extend(lookup_visibility_projects());
+    // the package worlds of C16 whose directories are all in order (chains, diamonds, DAGs, impl triples): qualified
+    // and type-directed references to own / imported / transitively reachable / unrelated packages, trait and inherent
+    // impls in every owner arrangement; here only the agreement of the two pipelines is judged
+    {
+        let want = if quick { 60 } else { 600 };
+        let mut wr = Rng::new(args.seed ^ 0xC16);
+        let mut taken = 0;
+        let mut i = 0;
+        while taken < want && i < 100 * want {
+            let mut r = wr.fork(i as u64);
+            let w = crate::c16::gen_world(i, &mut r);
+            i += 1;
+            let plain = w.pkgs.iter().all(|p| matches!(p.state, crate::c16::State::Ok));
+            let placed: usize = w.pkgs.iter().map(|p| p.uses.len() + p.impls.len()).sum();
+            if !plain || !matches!(w.shape, "chain" | "diamond" | "dag" | "pair") || placed == 0 || w.pkgs.len() < 3 {
+                continue;
+            }
+            taken += 1;
+            projects.push(Project { id: format!("c16w-{:04}", i - 1), kind: "c16-world", files: crate::c16::sources(&w), tags: vec![format!("world={}", w.shape)] });
+        }
+    }
     for i in 0..(if quick { 16 } else { 120 }) {
         projects.push(random_kinds_project(i, args.seed));
     }
@@ -832,6 +965,10 @@ pub fn main(args: &util::Args) {
     // the environment every link starts from (`GlobalTypeEnv::new()`: the builtins)
     writeln!(out, "genv0\tGENV\t0\t{}", genv_dump(&compiler::env::GlobalTypeEnv::new()).to_text()).unwrap();
     let cap = if quick { 6 } else { 120 };
+    // `gv c14 --only <kind-or-id-prefix>`: development aid
+    if let Some(only) = args.rest.iter().position(|x| x == "--only").and_then(|i| args.rest.get(i + 1)) {
+        projects.retain(|p| p.kind == only.as_str() || p.id.starts_with(only.as_str()));
+    }
     for p in &projects {
         // deeply nested sources recurse deeply in every pass
         if std::env::var("GV_TRACE").is_ok() { eprintln!("project {}", p.id); }
